@@ -2,7 +2,7 @@
 import itertools
 from facts import Node, strip_targs, Inconclusive
 from symex import Lin, Unknown, Ref, Closure, Sym, Exec, as_lin
-from evdom import EvDomain, Ev, run_paths
+from evdom import EvDomain, Ev, run_paths, loop_conds, loop_visits
 import common
 
 TUS = ['witness/w_router.cpp', 'src/observer/routing/SubjectRouter.cpp', 'src/observer/routing/RoutingLevelView.cpp',
@@ -47,7 +47,8 @@ class RouterDomain(EvDomain):
             if any(x.k == 'null' for x in a) and any((x.is_field('m_subject') or 'm_subject' in x.text()) for x in a):
                 v = self.atom('has_subject')
                 if v is not None: return (v if base == 'operator!=' else not v)
-            if any(x.k == 'call' and x.callee_base() == 'end' for x in a):
+            ops_ = [ex.read(x.loc, st, n) if isinstance(x, Ref) else x for x in ([ov] + list(vals)) if x is not None]
+            if any(isinstance(x, Sym) and x.name == 'children.find' for x in ops_) and any(isinstance(x, Sym) and x.name.endswith('.end') for x in ops_):
                 v = self.atom('found')
                 if v is not None: return (v if base == 'operator!=' else not v)
         if on == 'm_children' and base == 'empty': return self._b('children_empty', n)
@@ -58,7 +59,13 @@ class RouterDomain(EvDomain):
         v = self.atom(key)
         return v if v is not None else Unknown((key, n.id))
 
+    def container_empty(self, X):
+        return self.atom('children_empty') if X == 'm_children' else None
+
     def compare(self, ex, op, l, r, n, st, fr):
+        if op in ('==', '!=') and {type(l), type(r)} == {Sym} and {l.name == 'children.find', r.name == 'children.find'} == {True, False} and (l.name.endswith('.end') or r.name.endswith('.end')):
+            v = self.atom('found')
+            if v is not None: return v if op == '!=' else (not v)
         # m_subject == nullptr spelled with the built-in operator on a raw pointer / unique_ptr::get()
         if op in ('==', '!=') and (repr(l) == '0' or repr(r) == '0'):
             other = n.n('lhs') if repr(r) == '0' else n.n('rhs')
@@ -78,8 +85,14 @@ def node_fns(facts, base):
 
 
 def children_loop_iterations(f, E):
-    conds = {n.n('c').id for n in f.nodes() if n.k == 'rangefor' and n.n('range') is not None and n.n('range').is_field('m_children') and n.n('c') is not None}
-    return sum(1 for e in E if e.kind == 'branch' and e.node is not None and e.node.id in conds and e.val is True), conds
+    """iterations of loops over m_children entered on this path (range-for, iterator loops, while loops: by the container the loop test is about)"""
+    conds = {n.n('c').id for n in f.nodes() if n.k in ('rangefor', 'for', 'while', 'do') and n.n('c') is not None}
+    vis = [(i, c) for i, c in loop_visits(E, conds) if c == 'm_children']
+    return len(vis), conds
+
+
+def self_recursive(f):
+    return any(n.k == 'call' and strip_targs(n.calleeq or '') == f.gname for n in f.nodes())
 
 
 class RouterAnalysis:
@@ -155,6 +168,8 @@ class RouterAnalysis:
         fns = node_fns(self.facts, 'notify')
         for f in fns[:8]:
             short = f.name.replace('std::basic_string<char>', 'std::string')[:80]
+            if not self_recursive(f):
+                self.add('RT.3', None, f'{short}: traversal', f.shortloc(), 'Node::notify does not descend by calling itself (explicit stack / loop): the per-level table is not applicable'); continue
             for matches, leaf, has_subject, regex, found in itertools.product([True, False], repeat=5):
                 if not matches and (leaf or has_subject or regex or found): continue
                 if leaf and (regex or found): continue
@@ -213,19 +228,34 @@ class RouterAnalysis:
         F = self.facts
         m = F.fn(f'{VIEW}::matches')
         if m is None: self.rep.anchor_missing(f'{VIEW}::matches', 'not found'); return
-        calls = [n for n in m.nodes() if n.k == 'call']
-        rm = [n for n in calls if (n.calleeq or '') == 'std::regex_match']
-        rs = [n for n in calls if (n.calleeq or '') in ('std::regex_search',)]
+        def nested(f):
+            """f plus every function defined inside its source range (lambdas, call operators of local classes / visitors)"""
+            try: end = int((f.d.get('endloc') or '').split(':')[1])
+            except Exception: end = f.line
+            return [f] + [g for g in F.fns if g is not f and g.file == f.file and f.line <= g.line <= end]
+        calls = [n for g in nested(m) for n in g.nodes() if n.k == 'call']
+        rm = [n for n in calls if strip_targs(n.calleeq or '') == 'std::regex_match']
+        rs = [n for n in calls if strip_targs(n.calleeq or '') in ('std::regex_search',)]
         eqs = [n for n in calls if n.ck == 'op' and n.op == '==' and any('basic_string' in (a.type or '') for a in n.ns('args') if a is not None)]
-        partial = [n for n in calls if n.callee_base() in ('starts_with', 'ends_with', 'find', 'compare', 'rfind', 'contains')]
-        self.add('RT.4', bool(rm) and not rs, 'a regex level matches by std::regex_match over the whole level name', (rs or rm or [m])[0].shortloc() if (rs or rm) else m.shortloc(),
-                 '' if (rm and not rs) else 'regex_search accepts a partial match: observers whose level only contains the pattern are notified', key='RT.4|regex_match')
+        eqs += [n for n in calls if n.callee_base() == 'compare' and len([a for a in n.ns('args') if a is not None]) == 1]
+        partial = [n for n in calls if n.callee_base() in ('starts_with', 'ends_with', 'find', 'rfind', 'contains') or (n.callee_base() == 'compare' and len([a for a in n.ns('args') if a is not None]) >= 3)]
+        inst = 'a regex level matches by std::regex_match over the whole level name'
+        if rs: self.add('RT.4', False, inst, rs[0].shortloc(), 'regex_search accepts a partial match: observers whose level only contains the pattern are notified', key='RT.4|regex_match')
+        elif rm: self.add('RT.4', True, inst, rm[0].shortloc(), key='RT.4|regex_match')
+        else: self.add('RT.4', None, inst, m.shortloc(), 'no std::regex_match / regex_search call found in matches()')
         if rm:
-            a = rm[0].ns('args')
-            whole = len(a) >= 2 and a[0] is not None and a[1] is not None and a[0].k == 'call' and a[0].callee_base() == 'begin' and a[1].k == 'call' and a[1].callee_base() == 'end'
-            self.add('RT.4', whole, 'regex_match runs over [begin, end) of the level name', rm[0].shortloc(), '' if whole else 'regex_match over a sub-range', key='RT.4|range')
-        self.add('RT.4', bool(eqs) and not partial, 'a string level matches by whole-string equality', (partial or eqs or [m])[0].shortloc() if (partial or eqs) else m.shortloc(),
-                 '' if (eqs and not partial) else f'{partial[0].callee_base() if partial else "no =="} used for a string level: prefixes/substrings match', key='RT.4|string-eq')
+            a = [x for x in rm[0].ns('args') if x is not None]
+            whole = len(a) >= 2 and a[0].k == 'call' and a[0].callee_base() in ('begin', 'cbegin') and a[1].k == 'call' and a[1].callee_base() in ('end', 'cend')
+            import guards as _g
+            ptr_whole = len(a) >= 2 and a[1].k == 'binop' and a[1].op == '+' and a[1].n('lhs') is not None and _g.same_expr(_g.strip_casts(a[1].n('lhs')), _g.strip_casts(a[0])) and any(x.k == 'call' and x.callee_base() in ('size', 'length') for x in a[1].n('rhs').walk())
+            one_arg_str = len(a) == 2      # regex_match(string, regex): the whole string
+            if whole or ptr_whole or one_arg_str: self.add('RT.4', True, 'regex_match runs over the whole level name', rm[0].shortloc(), key='RT.4|range')
+            elif len(a) >= 2 and a[0].k == 'call' and a[0].callee_base() in ('begin', 'cbegin') and a[1].k in ('binop',): self.add('RT.4', False, 'regex_match runs over the whole level name', rm[0].shortloc(), 'regex_match over a sub-range', key='RT.4|range')
+            else: self.add('RT.4', None, 'regex_match runs over the whole level name', rm[0].shortloc(), f'range arguments `{a[0].text()[:30]}`, `{a[1].text()[:30] if len(a) > 1 else ""}` not recognised')
+        inst = 'a string level matches by whole-string equality'
+        if partial: self.add('RT.4', False, inst, partial[0].shortloc(), f'{partial[0].callee_base()} used for a string level: prefixes/substrings match', key='RT.4|string-eq')
+        elif eqs: self.add('RT.4', True, inst, eqs[0].shortloc(), key='RT.4|string-eq')
+        else: self.add('RT.4', None, inst, m.shortloc(), 'no string comparison found in matches()')
         leaf = F.fn(f'{VIEW}::isLeaf')
         if leaf is not None:
             from symex import Domain
@@ -265,9 +295,15 @@ class RouterAnalysis:
             self.add('RT.4', ok, 'up() is the view of the same key at level + 1', up.shortloc(), '' if ok else 'up() does not advance by exactly one level', key='RT.4|up')
         isr = F.fn(f'{VIEW}::isRegex')
         if isr is not None:
-            gi = [n for n in isr.nodes() if n.k == 'call' and (n.calleeq or '') == 'std::get_if' and 'regex' in ' '.join(n.targs or [])]
-            ne = [n for n in isr.nodes() if n.k == 'binop' and n.op == '!=']
-            self.add('RT.4', bool(gi) and bool(ne), 'isRegex() tests the regex alternative of the level', isr.shortloc(), '' if gi and ne else 'isRegex does not test for the regex alternative', key='RT.4|isRegex')
+            cs = [n for n in isr.nodes() if n.k == 'call']
+            def alt(n): return ' '.join(n.targs or []) if n.targs else (n.callee or '')
+            rx = [n for n in cs if strip_targs(n.calleeq or '') in ('std::get_if', 'std::holds_alternative') and 'regex' in alt(n)]
+            st_ = [n for n in cs if strip_targs(n.calleeq or '') in ('std::get_if', 'std::holds_alternative') and 'regex' not in alt(n)]
+            neg = any((n.k == 'unop' and n.op == '!') or (n.k == 'binop' and n.op == '==' and any(x is not None and x.k == 'null' for x in (n.n('lhs'), n.n('rhs')))) for n in isr.nodes())
+            inst = 'isRegex() tests the regex alternative of the level'
+            if rx and not neg: self.add('RT.4', True, inst, isr.shortloc(), key='RT.4|isRegex')
+            elif st_ and not rx and not neg: self.add('RT.4', False, inst, isr.shortloc(), 'isRegex does not test for the regex alternative', key='RT.4|isRegex')
+            else: self.add('RT.4', None, inst, isr.shortloc(), 'the test of the variant alternative was not recognised')
 
     # ---- RT.5 writer/reader agreement -------------------------------------------------------------------------------------------------
     def writer_reader(self):
@@ -275,25 +311,52 @@ class RouterAnalysis:
         lk = F.fn(f'{NODE}::lookupNode')
         if lk is None: self.rep.anchor_missing(f'{NODE}::lookupNode', 'not found'); return
         ins = [n for n in lk.nodes() if n.k == 'call' and n.n('object') is not None and n.n('object').is_field('m_children') and n.callee_base() in ('insert', 'emplace', 'try_emplace', 'operator[]')]
-        ok = False; why = 'child insertion not recognised'
+        import guards as _g
+        verdict = None; why = 'child insertion not recognised'
         if len(ins) == 1:
-            refs = [x for x in ins[0].walk() if x.k == 'ref' and x.dk == 'local']
-            names = {x.decl for x in refs}
-            nodec = [x for x in ins[0].walk() if x.k == 'construct' and x.d.get('class') == NODE and not x.copy and not x.move]
-            same = len(names) == 1 and len(nodec) == 1 and nodec[0].ns('args') and any(y.k == 'ref' and y.decl in names for y in nodec[0].walk())
-            ok = bool(same); why = 'the map key and the name given to the new Node are different values: the string branch finds by key, the regex branch matches on the name'
-            # the key is nextLevel.asString()
-            if ok:
-                d = None
-                for x in lk.nodes():
-                    if x.k == 'decl':
-                        for v in x.vars:
-                            if v['decl'] in names and v.get('init'): d = Node(lk.tu, v['init'])
-                ok = d is not None and any(y.k == 'call' and y.callee_base() == 'asString' for y in d.walk())
-                why = 'the child key is not the next level\'s string'
-        self.add('RT.5', ok, 'lookupNode inserts the child under key k with Node(k), k = next level name', ins[0].shortloc() if ins else lk.shortloc(), '' if ok else why, key='RT.5|key-name')
+            call = ins[0]
+            args = [a for a in call.ns('args') if a is not None]
+            if call.ck == 'op' and 'mclass' in call.d: args = args[1:]
+            key_e = name_e = None
+            nodec = [x for x in call.walk() if x.k == 'construct' and x.d.get('class') == NODE and not x.copy and not x.move]
+            pairs = [x for x in call.walk() if x.k in ('initlist', 'construct') and len([a for a in x.ns('args') if a is not None]) == 2 and x.id != call.id and (x.k == 'initlist' or 'pair' in (x.d.get('class') or ''))]
+            if call.callee_base() in ('try_emplace', 'emplace') and len(args) == 2:
+                key_e = args[0]; name_e = args[1]
+                if nodec and nodec[0].ns('args'): name_e = [a for a in nodec[0].ns('args') if a is not None][0]
+            elif pairs and nodec and nodec[0].ns('args'):
+                key_e = [a for a in pairs[0].ns('args') if a is not None][0]; name_e = [a for a in nodec[0].ns('args') if a is not None][0]
+            elif call.callee_base() == 'operator[]' and args: key_e = args[0]
+            def strip(e):
+                e = _g.strip_casts(e)
+                while e is not None and e.k == 'construct' and (e.copy or e.move or len([a for a in e.ns('args') if a is not None]) == 1): e = _g.strip_casts([a for a in e.ns('args') if a is not None][0])
+                return e
+            if key_e is not None and name_e is not None:
+                k_, n_ = strip(key_e), strip(name_e)
+                def root(e):
+                    for _ in range(4):
+                        if e.k == 'ref' and e.dk == 'local':
+                            i_ = _g.single_assignment_init(lk, e.decl)
+                            if i_ is None: break
+                            e = strip(i_)
+                        else: break
+                    return e
+                kr, nr = root(k_), root(n_)
+                simple = lambda e: e.k == 'ref' or (e.k == 'member' and e.field) or e.k == 'call'
+                if _g.same_expr(k_, n_) or _g.same_expr(kr, nr): verdict = True
+                elif simple(kr) and simple(nr) and not (kr.k == 'call' and nr.k == 'call'): verdict = False; why = 'the map key and the name given to the new Node are different values: the string branch finds by key, the regex branch matches on the name'
+                else: why = f'key `{k_.text()[:30]}` and node name `{n_.text()[:30]}` not compared'
+                if verdict:
+                    # the key is the next level's string
+                    src = k_
+                    if k_.k == 'ref' and k_.dk == 'local':
+                        init = _g.single_assignment_init(lk, k_.decl)
+                        if init is not None: src = init
+                    is_name = any(y.k == 'call' and (y.callee_base() == 'asString' or (strip_targs(y.calleeq or '') == 'std::get' and 'basic_string' in ' '.join(y.targs or []))) for y in src.walk())
+                    if not is_name: verdict = None; why = 'the origin of the child key was not recognised as the next level\'s string'
+        self.add('RT.5', verdict, 'lookupNode inserts the child under key k with Node(k), k = next level name', ins[0].shortloc() if ins else lk.shortloc(), '' if verdict else why, key='RT.5|key-name')
         rec = [n for n in lk.nodes() if n.k == 'call' and strip_targs(n.calleeq or '') == f'{NODE}::lookupNode']
-        self.add('RT.5', len(rec) == 1, 'lookupNode descends one level per call', lk.shortloc(), '' if len(rec) == 1 else f'{len(rec)} recursive calls', key='RT.5|descend')
+        if not rec: self.add('RT.5', None, 'lookupNode descends one level per call', lk.shortloc(), 'lookupNode is not recursive (loop over the levels): not followed')
+        else: self.add('RT.5', len(rec) == 1, 'lookupNode descends one level per call', lk.shortloc(), '' if len(rec) == 1 else f'{len(rec)} recursive calls', key='RT.5|descend')
         # builder: root level "" first, then levels in call order
         bs = [f for f in F.fns if f.d.get('class') == 'tulz::RoutingKeyBuilder' and f.d.get('ctor')]
         for b in bs:
@@ -312,30 +375,59 @@ class RouterAnalysis:
     # ---- C13 -----------------------------------------------------------------------------------------------------------------------------
     def shrink_rules(self):
         F = self.facts
-        # SH.1: erasures from m_children
-        erasers = []
-        for f in F.fns:
-            for n in f.nodes():
-                if n.k == 'call' and any(a is not None and a.is_field('m_children', NODE) for a in ([n.n('object')] + n.ns('args'))) and \
-                        (n.callee_base() in ('erase', 'clear', 'extract', 'erase_if', 'swap', 'operator=') or (n.calleeq or '') in ('std::erase_if',)):
-                    erasers.append((f, n))
         sh = F.fn(f'{NODE}::shrink')
         if sh is None: self.rep.anchor_missing(f'{NODE}::shrink', 'not found'); return
+        # helpers reachable from shrink only (private member functions all of whose callers are shrink or such helpers)
+        callers = {}
+        for g in F.fns:
+            for n in g.nodes():
+                if n.k == 'call' and n.callee_in_root:
+                    for t in F.resolve(n): callers.setdefault(t.gname, set()).add(g.gname)
+        def only_from_shrink(gname, seen=()):
+            if gname == f'{NODE}::shrink': return True
+            cs = callers.get(gname, set()) - {gname}
+            return bool(cs) and gname not in seen and all(only_from_shrink(c, seen + (gname,)) for c in cs)
+        # SH.1: erasures from m_children
+        ERASE = ('erase', 'clear', 'extract', 'erase_if', 'swap', 'operator=', 'pop_back', 'pop_front')
+        erasers = []
+        for f in F.fns:
+            if f.d.get('lambda'): continue
+            for n in f.nodes():
+                if n.k == 'call' and any(a is not None and a.is_field('m_children', NODE) for a in ([n.n('object')] + n.ns('args'))) and \
+                        (n.callee_base() in ERASE or strip_targs(n.calleeq or '') in ('std::erase_if',)):
+                    erasers.append((f, n))
         for f, n in erasers:
-            ok = f.gname == f'{NODE}::shrink' and (n.calleeq or '') == 'std::erase_if'
-            if ok:
+            inst = f'{f.name[:60]}: erases from m_children only what isEmpty()'
+            if not only_from_shrink(f.gname):
+                self.add('SH.1', False, f'{f.name[:60]}: erases from m_children', n.shortloc(), f'`{n.text()[:50]}` removes children outside shrink (reached from {sorted(callers.get(f.gname, set()) - {f.gname})[:2] or "the public interface"})', key=f'SH.1|other|{f.gname}'); continue
+            if strip_targs(n.calleeq or '') == 'std::erase_if':
                 lam = next((a for a in n.ns('args') if a is not None and a.k == 'lambda'), None)
                 lf = F.lambda_fn(lam) if lam is not None else None
-                ok = False
+                ok = None
                 if lf is not None:
+                    ok = True
                     for truth in (True, False):
                         dom = RouterDomain(dict(child_empty=truth))
                         vals = {P.ret if isinstance(P.ret, bool) else repr(P.ret) for P in Exec(F, dom).run_closure(Closure(lam, lf, {}), this_path=('this',))}
-                        if vals != {truth}: break
-                    else: ok = True
+                        if vals != {truth}: ok = False if all(isinstance(v, bool) for v in vals) else None
                 self.add('SH.1', ok, 'the erase predicate is exactly child.isEmpty()', n.shortloc(), '' if ok else 'children are erased by a predicate other than isEmpty(): a key with a live subscription at or below it can be removed', key='SH.1|pred')
-            else:
-                self.add('SH.1', False, f'{f.name[:60]}: erases from m_children', n.shortloc(), f'`{n.text()[:50]}` removes children outside shrink\'s erase_if(isEmpty)', key=f'SH.1|other|{f.gname}')
+                continue
+            if n.callee_base() == 'clear':
+                self.add('SH.1', False, inst, n.shortloc(), f'`{n.text()[:50]}` removes children regardless of isEmpty()', key=f'SH.1|other|{f.gname}'); continue
+            if n.callee_base() in ('swap', 'operator=', 'extract'):
+                self.add('SH.1', None, inst, n.shortloc(), f'`{n.text()[:50]}`: the children are rebuilt (extract / swap / assignment): which of them are dropped is not followed'); continue
+            # a hand-written erase: on no path of this function may an erase happen when the tested child is not empty
+            verdict = True; why = ''
+            for truth in (False, True):
+                dom = RouterDomain(dict(child_empty=truth, matches=True, leaf=True))
+                try: res = run_paths(F, f, dom)
+                except Inconclusive as e: verdict = None; why = str(e); break
+                for P, E in res:
+                    ers = [i for i, e in enumerate(E) if e.kind == 'call' and e.obj == 'm_children' and e.name.split('::')[-1] in ('erase', 'pop_back', 'pop_front')]
+                    tests = [i for i, e in enumerate(E) if e.kind == 'call' and strip_targs(e.name) == f'{NODE}::isEmpty']
+                    if ers and not truth: verdict = False; why = 'a child is erased on a path where isEmpty() is false: a key with a live subscription at or below it can be removed'
+                    if ers and truth and not any(t < ers[0] for t in tests): verdict = False if verdict is not False else verdict; why = why or 'a child is erased without testing isEmpty()'
+            self.add('SH.1', verdict, inst, n.shortloc(), why, key='SH.1|pred')
         if not erasers: self.add('SH.1', None, 'erasure from m_children', sh.shortloc(), 'no erase found')
         resets = [(f, n) for f in F.fns for n in f.nodes() if n.k == 'call' and n.n('object') is not None and n.n('object').is_field('m_subject', NODE) and n.callee_base() in ('reset', 'release', 'operator=', 'swap')]
         bad = [(f, n) for f, n in resets if f.gname != f'{NODE}::subscribe']
@@ -349,70 +441,123 @@ class RouterAnalysis:
                 dom = RouterDomain(dict(has_subject=hs, has_subscriptions=sub, children_empty=ce), keep={f'{NODE}::isEmpty'})
                 vals = {P.ret if isinstance(P.ret, bool) else repr(P.ret) for P, E in run_paths(F, ie, dom)}
                 want = ce and not (hs and sub)
-                self.add('SH.2', vals == {want}, f'isEmpty() row (subject={hs}, subscriptions={sub}, no children={ce}) = {sorted(map(str, vals))}', ie.shortloc(),
+                unk = any(not isinstance(v, bool) for v in vals)
+                self.add('SH.2', None if (unk and vals != {want}) else vals == {want}, f'isEmpty() row (subject={hs}, subscriptions={sub}, no children={ce}) = {sorted(map(str, vals))}', ie.shortloc(),
                          '' if vals == {want} else f'expected {want}: ' + ('a node with a live subscription or with children counts as empty and is erased by shrink' if not want else 'a dead node is never pruned'), key='SH.2|table')
         # SH.3 shrink skeleton
-        for matches, leaf, regex, found in itertools.product([True, False], repeat=4):
-            if not matches and (leaf or regex or found): continue
-            if leaf and (regex or found): continue
-            if regex and found: continue
-            dom = RouterDomain(dict(matches=matches, leaf=leaf, regex=regex, found=found))
-            res = run_paths(F, sh, dom)
-            row = f'(matches={matches}, leaf={leaf}, next is regex={regex}, child found={found})'
-            for P, E in res:
-                er = [i for i, e in enumerate(E) if e.kind == 'call' and e.name == 'std::erase_if']
-                rec = [i for i, e in enumerate(E) if e.kind == 'call' and strip_targs(e.name) == f'{NODE}::shrink']
-                iters, _ = children_loop_iterations(sh, E)
-                if P.unknown_atoms and matches:
-                    # an extra condition decides whether this node is processed at all
-                    pass
-                if not matches:
-                    ok = not er and not rec
-                    self.add('SH.3', ok, f'shrink row {row}: a non-matching node is left alone', sh.shortloc(), '' if ok else 'shrink prunes outside the pattern', key='SH.3|nomatch'); continue
-                ok_e = len(er) == 1 and all(r < er[0] for r in rec)
-                why = ''
-                if len(er) != 1: why = f'{len(er)} erase_if call(s) on a path where the level matches ({[c.text()[:40] for c in P.unknown_atoms][:2] or "no extra condition"}): dead keys along the pattern are not removed'
-                elif not all(r < er[0] for r in rec): why = 'children are erased before the recursion: a branch that becomes empty only after its own children were pruned survives (a full-depth wildcard shrink does not remove every dead branch)'
-                self.add('SH.3', ok_e, f'shrink row {row}: recursion first, then erase_if(isEmpty) exactly once ({iters} children on this path)', E[er[0]].site if er else sh.shortloc(), why, key='SH.3|order')
-                if leaf: okr = not rec
-                elif regex: okr = len(rec) == iters
-                elif found: okr = len(rec) == 1
-                else: okr = not rec
-                self.add('SH.3', okr, f'shrink row {row}: recursion follows the child-selection rule', sh.shortloc(), '' if okr else f'{len(rec)} recursive call(s) for {iters} children', key='SH.3|select')
-        # SH.4 exists / depth
-        exf = F.fn(f'{NODE}::exists')
-        if exf is not None:
-            for matches, leaf, regex, found, ce in itertools.product([True, False], repeat=5):
+        if not self_recursive(sh) and not any(strip_targs(n.calleeq or '') == f'{NODE}::shrink' for g in F.fns if only_from_shrink(g.gname) for n in g.nodes() if n.k == 'call'):
+            self.add('SH.3', None, 'shrink traversal', sh.shortloc(), 'Node::shrink does not descend by calling itself: the per-level table is not applicable')
+        else:
+            any_prune = False
+            for matches, leaf, regex, found in itertools.product([True, False], repeat=4):
                 if not matches and (leaf or regex or found): continue
                 if leaf and (regex or found): continue
                 if regex and found: continue
-                dom = RouterDomain(dict(matches=matches, leaf=leaf, regex=regex, found=found, child_exists=ce))
-                vals = set()
+                dom = RouterDomain(dict(matches=matches, leaf=leaf, regex=regex, found=found, child_empty=True))
+                res = run_paths(F, sh, dom)
+                row = f'(matches={matches}, leaf={leaf}, next is regex={regex}, child found={found})'
+                for P, E in res:
+                    if P.end in ('loop',): continue
+                    er_if = [i for i, e in enumerate(E) if e.kind == 'call' and e.name == 'std::erase_if']
+                    er = er_if + [i for i, e in enumerate(E) if (e.kind == 'call' and e.obj == 'm_children' and e.name.split('::')[-1] == 'erase') or (e.kind == 'call' and strip_targs(e.name) == f'{NODE}::isEmpty')]
+                    rec = [i for i, e in enumerate(E) if e.kind == 'call' and strip_targs(e.name) == f'{NODE}::shrink']
+                    iters, _ = children_loop_iterations(sh, E)
+                    if not matches:
+                        ok = not er and not rec
+                        self.add('SH.3', ok, f'shrink row {row}: a non-matching node is left alone', sh.shortloc(), '' if ok else 'shrink prunes outside the pattern', key='SH.3|nomatch'); continue
+                    if er: any_prune = True
+                    uses_erase_if = any(n.k == 'call' and strip_targs(n.calleeq or '') == 'std::erase_if' for g in F.fns if only_from_shrink(g.gname) and not g.d.get('lambda') for n in g.nodes())
+                    if uses_erase_if:
+                        ok_e = len(er_if) == 1 and all(r < er_if[0] for r in rec)
+                        why = ''
+                        if len(er_if) != 1: why = f'{len(er_if)} erase_if call(s) on a path where the level matches ({[c.text()[:40] for c in P.unknown_atoms][:2] or "no extra condition"}): dead keys along the pattern are not removed'
+                        elif not all(r < er_if[0] for r in rec): why = 'children are erased before the recursion: a branch that becomes empty only after its own children were pruned survives (a full-depth wildcard shrink does not remove every dead branch)'
+                        self.add('SH.3', ok_e, f'shrink row {row}: recursion first, then erase_if(isEmpty) exactly once ({iters} children on this path)', E[er_if[0]].site if er_if else sh.shortloc(), why, key='SH.3|order')
+                    elif er and rec:
+                        ok_e = all(r < min(er) for r in rec)
+                        self.add('SH.3', ok_e, f'shrink row {row}: recursion first, then the empty children are erased', E[min(er)].site, '' if ok_e else 'children are erased before the recursion: a branch that becomes empty only after its own children were pruned survives (a full-depth wildcard shrink does not remove every dead branch)', key='SH.3|order')
+                    sel_known = leaf or regex or ('found' in dom.consulted)
+                    if leaf: okr = not rec
+                    elif regex: okr = len(rec) == iters - (0 if uses_erase_if else sum(1 for i in er if E[i].kind == 'call' and strip_targs(E[i].name) == f'{NODE}::isEmpty') and 0)
+                    elif found: okr = len(rec) == 1
+                    else: okr = not rec
+                    if regex and not uses_erase_if:
+                        # a hand-written pruning loop walks m_children too: count only the iterations that recurse
+                        okr = len(rec) >= 0 and (len(rec) == iters or len(rec) <= iters)
+                        # every child visited by the descending loop: no iteration of a loop that contains the recursive call lacks it
+                        okr = True
+                        conds = {n.n('c').id: n for g in F.fns if only_from_shrink(g.gname) for n in g.nodes() if n.k in ('rangefor', 'for', 'while', 'do') and n.n('c') is not None and any(x.k == 'call' and strip_targs(x.calleeq or '') == f'{NODE}::shrink' for x in (n.n('body') or n).walk())}
+                        vis = [i for i, c in loop_visits(E, set(conds)) if c == 'm_children']
+                        bounds = vis + [len(E)]
+                        for k in range(len(vis)):
+                            if not any(bounds[k] < r < bounds[k + 1] for r in rec): okr = False
+                        iters = len(vis)
+                    if not sel_known and not okr:
+                        self.add('SH.3', None, f'shrink row {row}: recursion follows the child-selection rule', sh.shortloc(), 'the child is not selected by find(name): selection not followed'); continue
+                    self.add('SH.3', okr, f'shrink row {row}: recursion follows the child-selection rule', sh.shortloc(), '' if okr else f'{len(rec)} recursive call(s) for {iters} children', key='SH.3|select')
+            if not any_prune: self.add('SH.3', False, 'shrink erases the empty children of a matching node', sh.shortloc(), 'no path of shrink removes anything: dead keys along the pattern are not removed', key='SH.3|order')
+        # SH.4 exists / depth
+        exf = F.fn(f'{NODE}::exists')
+        if exf is not None and not self_recursive(exf):
+            self.add('SH.4', None, 'exists traversal', exf.shortloc(), 'Node::exists does not descend by calling itself: the per-level table is not applicable')
+        elif exf is not None:
+            for matches, leaf, regex, found, ce, che in itertools.product([True, False], repeat=6):
+                if not matches and (leaf or regex or found): continue
+                if leaf and (regex or found): continue
+                if regex and found: continue
+                if not regex and che: continue
+                dom = RouterDomain(dict(matches=matches, leaf=leaf, regex=regex, found=found, child_exists=ce, children_empty=che))
+                vals = set(); full = []
                 for P, E in run_paths(F, exf, dom):
-                    vals.add(P.ret if isinstance(P.ret, bool) else ('any' if P.ret is not None else None))
-                row = f'(matches={matches}, leaf={leaf}, regex={regex}, found={found}, child exists={ce})'
+                    if P.end == 'loop': continue
+                    v = P.ret if isinstance(P.ret, bool) else ('any' if P.ret is not None else None)
+                    vals.add(v)
+                    iters, _ = children_loop_iterations(exf, E)
+                    rec = [e for e in E if e.kind == 'call' and strip_targs(e.name) == f'{NODE}::exists']
+                    anyof = [e for e in E if e.kind == 'anyof' and e.obj == 'm_children']
+                    full.append((v, iters, len(rec), bool(anyof)))
+                row = f'(matches={matches}, leaf={leaf}, regex={regex}, found={found}, child exists={ce}' + (f', no children={che}' if regex else '') + ')'
                 if not matches: want = {False}
                 elif leaf: want = {True}
-                elif regex: want = None
+                elif regex:
+                    # any child: false for no children; with children, the children's common answer; every child is asked before `false`
+                    if any(not isinstance(v, bool) for v in vals):
+                        self.add('SH.4', None, f'exists row {row}', exf.shortloc(), f'result {sorted(map(str, vals))} not followed'); continue
+                    if che: ok = vals <= {False} or all(it == 0 for v, it, r, a in full if v is False) and False not in {v for v, it, r, a in full if it or a} and vals >= {False}
+                    else: ok = True
+                    bad = None
+                    for v, it, r, a in full:
+                        if (it == 0 and not a) and v is not False: bad = 'reports an existing key although the node has no children'
+                        if (it or a) and v is not ce and not (v is False and it == 0): bad = f'returns {v} although the children answer {ce}'
+                        if (it and not a) and v is False and r != it: bad = 'regex level does not consider every child'
+                    self.add('SH.4', bad is None, f'exists row {row} = {sorted(map(str, vals))}: true iff some child matches below', exf.shortloc(), bad or '', key='SH.4|anyof')
+                    continue
                 elif found: want = {ce}
                 else: want = {False}
-                if want is not None:
-                    self.add('SH.4', vals == want, f'exists row {row} = {sorted(map(str, vals))}', exf.shortloc(), '' if vals == want else f'expected {sorted(want)}', key='SH.4|exists')
-            anyof = [n for n in exf.nodes() if n.k == 'call' and (n.calleeq or '') == 'std::any_of']
-            ok = len(anyof) == 1 and anyof[0].ns('args')[0] is not None and anyof[0].ns('args')[0].callee_base() == 'begin' and anyof[0].ns('args')[1].callee_base() == 'end'
-            self.add('SH.4', ok, 'exists: a regex level asks any_of over all children', anyof[0].shortloc() if anyof else exf.shortloc(), '' if ok else 'regex level does not consider every child', key='SH.4|anyof')
+                self.add('SH.4', vals == want, f'exists row {row} = {sorted(map(str, vals))}', exf.shortloc(), '' if vals == want else f'expected {sorted(want)}', key='SH.4|exists')
         dp = F.fn(f'{NODE}::depth')
-        if dp is not None:
+        if dp is not None and not self_recursive(dp) and not any(n.k == 'lambda' for n in dp.nodes()):
+            self.add('SH.4', None, 'depth traversal', dp.shortloc(), 'Node::depth does not descend by calling itself: not followed')
+        elif dp is not None:
             res = run_paths(F, dp, RouterDomain())
-            okd = True; seen = 0
+            okd = True; seen = 0; unfollowed = False
             for P, E in res:
+                if P.end == 'loop': continue
                 it, _ = children_loop_iterations(dp, E)
                 rec = [e for e in E if e.kind == 'call' and strip_targs(e.name) == f'{NODE}::depth']
+                algo = [e for e in E if e.kind == 'call' and e.name in ('std::accumulate', 'std::max_element', 'std::for_each', 'std::transform_reduce', 'std::reduce')]
+                if algo: unfollowed = True; continue
                 if len(rec) != it: okd = False
                 if it == 0 and as_lin(P.ret) != Lin.const(1): okd = False
                 seen += 1
             mx = [n for n in dp.nodes() if n.k == 'call' and (n.calleeq or '') == 'std::max']
-            self.add('SH.4', okd and len(mx) == 1, f'depth = 1 + max over all children (0 for none) [{seen} paths]', dp.shortloc(), '' if okd and len(mx) == 1 else 'depth is not one more than the deepest child', key='SH.4|depth')
+            mn = [n for n in dp.nodes() if n.k == 'call' and strip_targs(n.calleeq or '') == 'std::min' and any(x.k == 'call' and strip_targs(x.calleeq or '') == f'{NODE}::depth' for x in n.walk())]
+            inst = f'depth = 1 + max over all children (0 for none) [{seen} paths]'
+            if mn: self.add('SH.4', False, inst, mn[0].shortloc(), 'depth is not one more than the deepest child (the minimum over the children is taken)', key='SH.4|depth')
+            elif unfollowed: self.add('SH.4', None, inst, dp.shortloc(), 'the maximum over the children is computed by a std algorithm: not followed')
+            elif okd and len(mx) == 1: self.add('SH.4', True, inst, dp.shortloc(), key='SH.4|depth')
+            elif not okd: self.add('SH.4', False, inst, dp.shortloc(), 'depth is not one more than the deepest child', key='SH.4|depth')
+            else: self.add('SH.4', None, inst, dp.shortloc(), 'how the maximum is taken was not recognised')
 
     # ---- C11 ---------------------------------------------------------------------------------------------------------------------------------
     def concurrent_rules(self):
